@@ -39,7 +39,11 @@ by the loader itself when missing — and `channel_positions.npy`) that does not
 tables.  A source that holds `clusters.channels.npy` makes the real `convert` raise FileNotFoundError
 (alf.py:179-182 tests the SOURCE directory, alf.py:224 reads the OUTPUT directory; `convertFS` reproduces it as
 `Err.noClusterChannels`).  A label containing `/` makes `Path.with_suffix` raise ValueError (alf.py:303) after
-all files have been written (`Err.badLabel`). -/
+all files have been written (`Err.badLabel`).  A source that is ALREADY ALF-named (`spikes.clusters.npy`,
+`spikes.templates.npy` instead of the KS names) is outside too: `convert` is documented "from KS/phy format to ALF", its
+rename table `_FILE_RENAMES` is keyed by the KS names, so nothing is copied and `compress_spikes_dtypes` raises
+StopIteration (alf.py:308) after everything else was written — `convertFS` reproduces it as `Err.noSpikesFile`
+(harness: tallied case `ALF-named source`, real StopIteration / model noSpikesFile). -/
 def Convertible (cfg : Cfg) (fs : FS) : Prop :=
   cfg.sameDir = false ∧ labelBad cfg.label = false ∧ fs.src.has ["clusters", "channels", "npy"] = false ∧
   fs.src.has ["clusters", "peakToTrough", "npy"] = false ∧ fs.src.has ["spike_clusters", "npy"] = true ∧
